@@ -114,3 +114,21 @@ package zoekt
 //@   trusted
 //@   ensures p != nil ==> result != nil
 //@   assigns nothing
+
+// ---------------------------------------------------------------------------
+// C24: wire conversions of Repository
+// ---------------------------------------------------------------------------
+
+// The two conversions call themselves for the entries of SubRepoMap. For
+// those nested calls only the frame is used: a conversion allocates its
+// result and writes nothing that existed before (assumed; the bodies
+// themselves are executed symbolically by the round-trip lemma).
+//@ func zoekt.(*Repository).ToProto
+//@   trusted
+//@   ensures (result == nil) == (r == nil)
+//@   assigns nothing
+
+//@ func zoekt.RepositoryFromProto
+//@   trusted
+//@   ensures true
+//@   assigns nothing
